@@ -439,6 +439,43 @@ func isDigitStart(s string) bool {
 	return len(s) > 0 && (s[0] >= '0' && s[0] <= '9' || s[0] == '.')
 }
 
+// commentCase: the block text with comments inserted must be read as the same tokens as the text
+// without them (intended tokens = what the real reader gives for the bare text), and then mean the same.
+func (g *gen) commentCase(base string, withEval bool) {
+	toks, ok := readTokens(g.env, base)
+	if !ok {
+		return
+	}
+	input := tokItems(toks)
+	variants := []string{"// note\n" + base, "/* note */ " + base, "\n// note\n\n" + base, base + " // end\n",
+		strings.Replace(base, " ", " /* c */ ", 1), "// one\n/* two */ " + base}
+	if i := strings.LastIndex(base, " "); i > 0 {
+		variants = append(variants, base[:i]+" // c\n"+base[i:])
+	}
+	for _, src := range variants {
+		if g.seen["cm:"+src] {
+			continue
+		}
+		g.seen["cm:"+src] = true
+		var impl string
+		got, ok := readTokens(g.env, src)
+		if !ok {
+			impl = "UNREADABLE-AS-INFIX-BLOCK"
+		} else if gi := tokItems(got); gi != input {
+			impl = "TOKENS-DIFFER read=" + gi
+		} else {
+			impl = implExpand(g.env, src)
+		}
+		line := escFinal(impl)
+		if withEval && ok {
+			line += "\t" + evalBlock(src) + "\t" + escFinal(src)
+		} else {
+			line += "\t\t" + escFinal(src)
+		}
+		g.out.Case(input, line, true, "comments")
+	}
+}
+
 // spacingCase renders the token texts with the given gaps (gaps[i] = text between token i and
 // i+1, "" or " ") and checks the reader yields the intended tokens, then compares the parse.
 // The documented sign rule (a '-' glued to a following digit and preceded by a blank or an
@@ -596,7 +633,7 @@ func main() {
 
 	// B. units: prefix not, indexing, slicing, dotted paths, calls, nested blocks, literals
 	units := []string{"a", "not a", "not not b", "v[1]", "v[a]", "v[a + 1]", "v[1:3]", "v[a:a + b]", "v[:2]", "v[2:]", "h.k", "h.j.m[1]",
-		"not v[0]", "(t 4)", "{b + c}", "{a * {b + c}}", "5", "-1", "2.5", "\"s\"", "[1 2]", "true", "not (tt 1)", "h.j.m[a - 1:a + 1]", "v[(t 1)]"}
+		"not v[0]", "(t 4)", "{b + c}", "{a * {b + c}}", "5", "-1", "2.5", "\"s\"", "[1 2]", "true", "nil", "not (tt 1)", "h.j.m[a - 1:a + 1]", "v[(t 1)]"}
 	k := 0
 	for _, u1 := range units {
 		g.parseCase(u1, true, "unit")
@@ -625,7 +662,7 @@ func main() {
 	}
 
 	// C. statements: semicolons, newlines, juxtaposition
-	stm := []string{"a", "x = a + b", "y = x * 2", "not a", "(t 1)", "v[1]", "x += 1", "{y = 3}", "-1", "h.k", "b ** 2", "x = y = 4", "[1 2]", "a , b"}
+	stm := []string{"a", "x = a + b", "y = x * 2", "not a", "(t 1)", "v[1]", "x += 1", "{y = 3}", "-1", "h.k", "b ** 2", "x = y = 4", "[1 2]", "a , b", "nil", "'c'"}
 	seps := []string{" ; ", "\n", " ", ";", " ;\n", " ; ; "}
 	for _, s1 := range stm {
 		for _, s2 := range stm {
@@ -654,7 +691,7 @@ func main() {
 	}
 
 	// D. arbitrary token sequences (also malformed), exhaustive for short lengths
-	alpha := []string{"a", "1", "+", "-", "*", "**", "=", "and", "not", "++", ",", ";", "[1]", ".b", "(f)", "if", "else", "{b}", "<", "mod", ":", "b:"}
+	alpha := []string{"a", "1", "+", "-", "*", "**", "=", "and", "not", "++", ",", ";", "[1]", ".b", "(f)", "if", "else", "{b}", "<", "mod", ":", "b:", "nil", "'c'"}
 	maxLen := 3
 	if thorough {
 		maxLen = 4
@@ -755,6 +792,17 @@ func main() {
 		"for a = range v { }", "for a, b = range v { }; b", "for a := range v { }",
 	} {
 		g.parseCase(src, true, "for-range-def-set")
+	}
+
+	// E3b. comments inside a block (after the brace, between tokens, before the closing brace) do not
+	// change how the block is read: labelled and plain for loops, if forms, statement lists, units
+	var cbases []string
+	cbases = append(cbases, fors...)
+	cbases = append(cbases, ifs...)
+	cbases = append(cbases, "top: for a = range v { if a == 2 { break top }; y += a }; a", "top: for i := 0; i < 3; i++ { x++ }",
+		"a: 1", "x = 1; y = 2", "a + b * c", "not a", "v[1]", "h.k", "x++", "nil", "x = 5; nil", "(t 1); (t 2)", "{a + b}", "-1", "[1 2]", "\"s\"")
+	for i, b := range cbases {
+		g.commentCase(b, i%2 == 0)
 	}
 
 	// E4. index contents of every token length 0..3 (thorough 4) over a small alphabet: v[ ... ]
